@@ -168,7 +168,8 @@ PROPS["C02"] = {
         "pkg": "command",
         "tests": [T("TestC02TargetStrings", {"checks": 1000, "shards": 8}, {"checks": 6000, "shards": 16}),
                   T("TestC02Exclusion", {"checks": 100, "shards": 8}, {"checks": 800, "shards": 16}),
-                  T("TestC02ExclusionWide", {"checks": 10, "shards": 6}, {"checks": 100, "shards": 16})],
+                  T("TestC02ExclusionWide", {"checks": 10, "shards": 6}, {"checks": 100, "shards": 16}),
+                  T("TestC02Redirect", {"checks": 150, "shards": 4}, {"checks": 2000, "shards": 8})],
     }, {
         "pkg": "command", "fuzz": True, "thorough_only": True,
         "tests": [F("FuzzC02Target", "90s")],
